@@ -41,6 +41,9 @@ type SliceV struct {
 type PtrV struct {
 	base *Agg
 	idx  int
+	// symbolic element pointer: points at base.s[idx+sym] with 0 <= sym < n (scalar elements only)
+	sym *Term
+	n   int
 }
 
 type IfaceV struct {
@@ -244,6 +247,9 @@ func (in *Interp) load(p PtrV) Value {
 		in.goPanic("nil pointer dereference")
 		return nil
 	}
+	if p.sym != nil {
+		return in.selectElem(p.base.s[p.idx:p.idx+p.n], p.sym)
+	}
 	if p.idx < 0 || p.idx >= len(p.base.s) {
 		in.abort("load: pointer out of range")
 	}
@@ -255,6 +261,17 @@ func (in *Interp) store(p PtrV, v Value) {
 		in.goPanic("nil pointer dereference")
 		return
 	}
+	if p.sym != nil {
+		nv, ok := v.(*Term)
+		if !ok {
+			in.abort("store of non-scalar through symbolic element pointer")
+		}
+		for k := 0; k < p.n; k++ {
+			old := p.base.s[p.idx+k].(*Term)
+			p.base.s[p.idx+k] = in.tt.Ite(in.tt.Eq(p.sym, in.tt.Const(p.sym.w, uint64(k))), nv, old)
+		}
+		return
+	}
 	storeInto(p.base, p.idx, v)
 }
 
@@ -262,7 +279,7 @@ func (in *Interp) newBox(t types.Type) PtrV {
 	a := &Agg{s: []Value{in.zero(t)}, typ: t}
 	in.nalloc++
 	a.id = in.nalloc
-	return PtrV{a, 0}
+	return PtrV{base: a}
 }
 
 func (in *Interp) strConst(s string) StrV {
